@@ -297,15 +297,49 @@ def check_lifecycle(ctx, P):
         f = ctx.need_fn(CR, name)
         if f is None:
             continue
-        tb = TermBuilder(f, P)
-        rets = [tb.rvalue(s["rv"]) for b, i, s in stmts(f) if "a" in s and mk_place(s["a"]) == (0, ())]
-        calls = [(c.get("callee") or "") for b, c in call_sites(f)]
-        ok = False
-        for b, c in call_sites(f):
-            cal = c.get("callee") or ""
-            args = [strip_refs(tb.joperand(a)) for a in c["args"]]
-            if len(args) == 2 and path_str(args[0]) == "self.state" and args[1][0] == "agg" and args[1][2] == want[1] and cal.endswith("::" + want[0]):
-                ok = True
+        # the predicate as a table result -> set of states, however the test is spelled (`==`, `!=`, `matches!`, `match`)
+        from analysis.guards import canon_bool
+        g = GuardAnalysis(f, P)
+        tb = g.tb
+        allv = set(P.enum_variants(CR, "dp::peripheral::PeripheralState") or [])
+        rows = {True: set(), False: set()}
+        det = True
+
+        def states(vs):
+            if vs is None:
+                return None
+            return set(vs[1]) if vs[0] == "in" else allv - set(vs[1])
+
+        def row(res, st):
+            nonlocal det
+            if st is None:
+                det = False
+            else:
+                rows[res] |= st
+        for b_, i_, s_ in stmts(f):
+            if "a" in s_ and mk_place(s_["a"]) == (0, ()):
+                t = tb.rvalue(s_["rv"])
+                for fs in g.at(b_, i_):
+                    cur = [vs for k, vs in fs.items() if k[0] == "discr" and path_str(strip_refs(k[1])) == "self.state"]
+                    if t[0] == "const" and isinstance(t[1], bool):
+                        row(t[1], states(cur[0]) if cur else None)
+                    else:
+                        kt, vt = canon_bool(t, True)
+                        kf, vf = canon_bool(t, False)
+                        if fs.get(kt) in (vt, vf):  # computed from a flag whose value is known on this path class
+                            row(fs.get(kt) == vt, states(cur[0]) if cur else None)
+                            continue
+                        for pol in (True, False):
+                            k, vs = canon_bool(t, pol)
+                            row(pol, states(vs) if k[0] == "discr" and path_str(strip_refs(k[1])) == "self.state" else None)
+        for b_, c_ in call_sites(f):
+            if mk_place(c_["dest"]) == (0, ()):
+                t = tb.call_term(c_)
+                for pol in (True, False):
+                    k, vs = canon_bool(t, pol)
+                    row(pol, states(vs) if k[0] == "discr" and path_str(strip_refs(k[1])) == "self.state" else None)
+        yes = (allv - {want[1]}) if want[0] == "ne" else {want[1]}
+        ok = det and bool(allv) and rows[True] == yes and rows[False] == allv - yes
         ctx.ob("e.lifecycle", "table|" + name.split("::")[-1], ok, "%s must be `state %s %s`" % (name, "!=" if want[0] == "ne" else "==", want[1]), f.loc(0))
 
 
